@@ -33,6 +33,9 @@ type c15Comp struct {
 	Alpha bool `long:"alpha" short:"a"`
 	Alt   bool `long:"alt"`
 	Also  bool `short:"b" long:"also"`
+	ALT   bool `long:"ALT"`
+	Alto  bool `long:"Alt"`
+	Up    bool `short:"A"`
 }
 
 type c15Req struct {
@@ -101,7 +104,7 @@ func c15Run(v *V, scen int, keys []string, vals []string) string {
 				out += it.Item + "|"
 			}
 		}
-		p.ParseArgs([]string{[]string{"--al", "-", "--"}[len(keys)-1]})
+		p.ParseArgs([]string{[]string{"--", "-", "--A"}[len(keys)-1]})
 		return out
 	case 5: // error message naming several items
 		p := NewNamedParser("prog", None)
